@@ -3,6 +3,7 @@
 -/
 import Props.C19
 import Proofs.Hierarchy
+import Props.Examples
 namespace Webauthn.Props.C19
 open Webauthn Generated
 
@@ -385,5 +386,13 @@ theorem fmt_safetynet_in_hierarchy {W : World} {st : AttStmt} {ad cdj : Bytes} {
     MErrIn_bind (MErrIn_liftE (fun e he => by rw [hsg] at he; cases he)) fun _ _ =>
     MErrIn_bind (MErrIn_reject (lib _)) fun _ _ =>
     verifySignatureC_errIn (lib _) ⟨_, rfl⟩ (wf.cryptoAnswers _)
+
+/-- the hypotheses are satisfiable: a packed self-attestation statement (signature a byte string, no certificates) in the
+example world, whose crypto library answers valid -/
+example : StmtWellFormed (Examples.world "webauthn.create") ⟨some (.bytes [1, 2]), none, none, some (.nint 6), none, none, none⟩ := by
+  refine ⟨?_, ?_, ?_⟩
+  · intro c hc; cases hc; exact ⟨_, rfl⟩
+  · intro l hl; simp [x5cList] at hl
+  · intro k s b d cls h; simp [World.sigVerify, Examples.world] at h
 
 end Webauthn.Props.C19
